@@ -36,6 +36,16 @@ def r1(repo, run):
     paths = tr.paths_of(repo, fi, no_inline={'preprocess', 'current_stage'}, follow_exceptions=False, mark_carried=True)
     n = 0
     verdicts = set()
+
+    def num(text, extra=None):
+        """integer value of an index expression with the loop-carried cursor set to 0 (None when it is not arithmetic on the cursor)"""
+        sub = {'carried(0)': 0}
+        sub.update(extra or {})
+        try:
+            import ast as _ast
+            return tr._ev_const(_ast.parse(text, mode='eval').body, sub)
+        except (tr._Unknown, SyntaxError):
+            return None
     for p in paths:
         for e in p.events:
             m = re.match(r'^self\.stages\[(.+?):(.+)\]$', e.target) if e.kind == 'store' else None
@@ -44,18 +54,28 @@ def r1(repo, run):
             n += 1
             lo, up = m.group(1), m.group(2)
             probs = []
-            if up.replace(' ', '') != (lo + '+1').replace(' ', ''):
-                probs.append('replaced slice is [%s:%s], not exactly the stage being preprocessed' % (lo, up))
-            v = e.value.text if e.value is not None else ''
-            pre = [c for c in p.events if c.kind == 'call' and c.attr == 'preprocess' and c.recv is not None and c.recv.text == 'self.stages[%s].ayns' % lo]
+            lo_v, up_v = num(lo), num(up)
+            if lo_v is None or up_v is None:
+                raise AnalysisError('Builder.preprocess: slice bounds %s:%s of the splice are not arithmetic on the cursor' % (lo[:30], up[:30]))
+            pre = [c for c in p.events[:tr.index_of(p, e)] if c.kind == 'call' and c.attr == 'preprocess' and c.recv is not None and c.recv.text.startswith('self.stages[') and c.recv.text.endswith('].ayns')]
             if not pre:
                 raise AnalysisError('Builder.preprocess: the stage under the cursor is not preprocessed before the splice')
-            NS = pre[0].result.text
-            if v != NS + '.stages':
-                probs.append('spliced sequence is %s (reversed / sorted / sliced copies change the document order)' % v[:60])
-            adv = '%s + len(%s.stages)' % (lo, NS)
-            if not any(val.text == adv for val in p.env.values()) and p.status == 'return':
-                probs.append('cursor is not advanced by the number of spliced stages')
+            st_v = num(pre[-1].recv.text[len('self.stages['):-len('].ayns')])
+            NS = pre[-1].result.text
+            if st_v is None:
+                raise AnalysisError('Builder.preprocess: index of the preprocessed stage is not arithmetic on the cursor')
+            if lo_v != st_v or up_v != lo_v + 1:
+                probs.append('replaced slice is [%d:%d] relative to the cursor while the preprocessed stage is at %d: not exactly the stage being preprocessed' % (lo_v, up_v, st_v))
+            v = e.value.text if e.value is not None else ''
+            if v != NS + '.stages' and not (e.value is not None and e.value.text in [x.value.text for x in p.events if x.kind == 'store'] and False):
+                alias = [x for x in p.events if x.kind == 'call' and x.callee == 'getattr' and len(x.args) >= 2 and x.args[0].text == NS and x.args[1].const == 'stages' and x.result is not None and x.result.text == v]
+                if not alias:
+                    probs.append('spliced sequence is %s (reversed / sorted / sliced copies change the document order)' % v[:60])
+            if p.status == 'return':
+                LEN = 3
+                finals = {num(val.text, {'len(%s)' % v: LEN, 'len(%s.stages)' % NS: LEN}) for val in p.env.values()}
+                if (st_v + LEN) not in finals:
+                    probs.append('the cursor does not move past exactly the spliced stages (after splicing %d stages at offset %d the loop-carried values are %s, none is %d): the document after an included stream is skipped / preprocessed twice' % (LEN, st_v, sorted(x for x in finals if isinstance(x, int)), st_v + LEN))
             verdicts.add(('bad', '; '.join(probs)) if probs else ('ok', 'self.stages[i:i+1] = <preprocessed>.stages ; i += len(<preprocessed>.stages)'))
     if not n:
         raise AnalysisError('Builder.preprocess: splice `self.stages[i:i+1] = ...` not recognised')
@@ -133,6 +153,8 @@ def include_table(repo, run):
                 return ['d1', 'd2']
             if name == 'add_source':
                 f_ = args[0]
+                if str(f_).startswith('/cwd/'):
+                    f_ = 'd2/' + str(f_)[5:]
                 log.append(('add', f_, dict(kwargs)))
                 d, _, n = str(f_).rpartition('/')
                 if (d, n) not in exists:
@@ -146,7 +168,20 @@ def include_table(repo, run):
                 return Opaque('preprocessed stream')
             raise AnalysisError('unexpected stub ' + name)
         f = FDE(repo, stubs={'get_subbuilder', 'get_lookup_dirs', 'add_source', 'build', 'on_preprocess'}, stub=stub)
-        f.extcalls = {'os.path.join': posixpath.join, 'os.path.normpath': posixpath.normpath}
+        # the file system of the table: the including file lives in d1, the working directory is d2 (= /cwd)
+        def _norm(pth):
+            pth = posixpath.normpath(str(pth))
+            if pth.startswith('/cwd/'):
+                pth = 'd2/' + pth[5:]
+            if '/' not in pth:
+                pth = 'd2/' + pth          # a relative name is resolved against the working directory
+            return pth
+
+        def _isfile(pth, exists=exists):
+            d, _, n = _norm(pth).rpartition('/')
+            return (d, n) in exists
+        f.extcalls = {'os.path.join': posixpath.join, 'os.path.normpath': posixpath.normpath, 'os.path.isfile': _isfile, 'os.path.exists': _isfile,
+                      'os.path.isabs': posixpath.isabs, 'os.path.abspath': lambda x: posixpath.normpath(posixpath.join('/cwd', x))}
         r = fde_guard(lambda: f.call(fi, me, 'p', builder))
         rows += 1
         want_adds = []
